@@ -156,6 +156,28 @@ def cases(rng, tier):
         c = "SOCK " + " ".join(d.hex() or "-" for d in ds)
         SOCK_DGRAMS[c] = ds
         out.append(c)
+    # the one-shot resolver on real sockets: responses to its SRV and A queries in which the records owned by the queried name
+    # have every shape a responder may give them - complete, with empty RDATA (RDLENGTH 0), of another type or class, in the other
+    # section, several of them, for another owner
+    qn = [b"_rv%d" % rng.below(100000), b"_udp", b"local"]
+    nm = dns.enc_name(qn)
+
+    def rec(owner, t, cls, rd):
+        return owner + t.to_bytes(2, "big") + cls.to_bytes(2, "big") + b"\x00\x00\x00\x0a" + len(rd).to_bytes(2, "big") + rd
+    srv_rd = b"\x00\x00\x00\x00\x1f\x90" + nm
+    a_rd, aaaa_rd = b"\x7f\x00\x00\x01", b"\x00" * 15 + b"\x01"
+    other = dns.enc_name([b"other", b"local"])
+    shapes = []
+    for ans in ([rec(nm, 33, 1, srv_rd)], [rec(nm, 33, 1, b"")], [rec(nm, 33, 3, srv_rd)], [rec(nm, 1, 1, a_rd)], [rec(nm, 1, 1, b"")],
+                [rec(nm, 28, 1, b"")], [rec(nm, 28, 1, aaaa_rd)], [rec(nm, 16, 1, b"\x03k=v")], [rec(nm, 65280, 1, b"\x01")], [rec(other, 33, 1, srv_rd)],
+                [rec(nm, 33, 1, b""), rec(nm, 33, 1, srv_rd)], [rec(nm, 33, 1, srv_rd[:5])], []):
+        for add in ([], [rec(nm, 1, 1, a_rd)], [rec(nm, 1, 1, b"")], [rec(nm, 28, 1, b"")], [rec(nm, 28, 1, aaaa_rd)], [rec(other, 1, 1, a_rd)], [rec(nm, 33, 1, b"")]):
+            shapes.append(b"\x00\x00\x84\x00\x00\x00" + len(ans).to_bytes(2, "big") + b"\x00\x00" + len(add).to_bytes(2, "big") + b"".join(ans) + b"".join(add))
+    rng.shuffle(shapes)
+    per = 10 if tier == "quick" else 23
+    for part in range(4):
+        ds = shapes[part * per:(part + 1) * per]
+        out.append("SOCKR %s %s" % (b".".join(qn).hex(), " ".join(d.hex() for d in ds)))
     # a responder serving thousands of records below its name, asked for all of them: the reply does not fit a datagram
     # (finding F31: the failed send used to end the loop); then it must still answer
     for n in (40, 1000, 4000):
@@ -204,7 +226,7 @@ def normalize(case, out):
     import re
     if case.startswith("SOCK"):
         # ALIVE (or NOSOCKET where the environment has no multicast) is what the model's constant stands for
-        return "SOCK" if out.split(" ")[0] in ("SOCK", "ALIVE", "NOSOCKET") else out
+        return "SOCK" if out.split(" ")[0] in ("SOCK", "ALIVE", "NOSOCKET", "DONE") else out
     out = re.sub(r"ING ([0-9a-f]+)[^|]*", r"ING \1 ", out)
     return re.sub(r"\| K ([0-9a-f]+).*$", r"| K \1", out)
 
@@ -217,10 +239,14 @@ def classify(case, out):
 
 
 def nontrivial(case, out):
-    return "REPLY" in out or "ING" in out or out.startswith("ALIVE")
+    return "REPLY" in out or "ING" in out or out.startswith("ALIVE") or out.startswith("DONE")
 
 
 def oracle(case, out):
+    if case.startswith("SOCKR"):
+        if out.startswith("PANIC") or out in ("HANG", "CRASH"):
+            return "%s: the one-shot resolver did not return while these responses were multicast: %s" % (out, case[6:600])
+        return None
     if case.startswith("SOCK"):
         if out.startswith("DEAD") or out.startswith("PANIC") or out in ("HANG", "CRASH"):
             return ("%s: a running SimpleMdnsResponder no longer answers a query for its own record after these datagrams were "
